@@ -147,8 +147,47 @@ def inv_8008(st):
 
 
 # the invariant each simulator maintains (checked on the REAL state after every step) and the size of its address space
-INVARIANT = {"tms1000": inv_tms1000, "8008": inv_8008, "lc3": lambda st: []}
-MEM_LIMIT = {"tms1000": 0x400, "8008": 0x10000, "lc3": 0x20000}
+def inv_6502(st):
+    return [k for k in ("a", "x", "y", "sp") if int(st[k], 16) > 0xff]
+
+
+INVARIANT = {"tms1000": inv_tms1000, "8008": inv_8008, "lc3": lambda st: [], "6502": inv_6502}
+MEM_LIMIT = {"tms1000": 0x400, "8008": 0x10000, "lc3": 0x20000, "6502": 0x10000}
 # tms1000 never writes simulated memory: its limit is only used for "cells not given must stay absent"
 
-GENERATORS = {"tms1000": tms1000_lines, "8008": i8008_lines, "lc3": lc3_lines}
+# ---- 6502 -----------------------------------------------------------------------------------
+def m6502_lines(rng, per_opcode):
+    """all 256 opcodes x per_opcode states: SP at 0x00 / 0xff (both edges of the stack page), X / Y at 0 and 0xff (index
+    wrap in zero page and at 0xffff), PC at 0xfffd..0xffff (operands and the next PC beyond 64 KiB) and at the operand's own
+    address (self-modifying store: the disassembler measures the new byte), decimal flag both ways, stop_running both ways,
+    a few cases with break_io armed on the written address (answer exit=<status>)"""
+    lines, strata = [], set()
+    for opcode in range(256):
+        for i in range(per_opcode):
+            edge = i < 5
+            pc = rng.choice([0xffff, 0xfffe, 0xfffd, 0, 0x00fe, 0x01ff]) if edge else rng.getrandbits(16)
+            sp = rng.choice([0, 0xff, 1, 0xfe]) if edge else rng.getrandbits(8)
+            x = rng.choice([0, 0xff, 1]) if edge else rng.getrandbits(8)
+            y = rng.choice([0, 0xff, 1]) if edge else rng.getrandbits(8)
+            a = rng.choice([0, 0xff, 0x80, 0x7f, 0x99, 0x0f, rng.getrandbits(8)])
+            sr = rng.choice([0, 0xff, 0x08, 0x09, 0x01, rng.getrandbits(8)])
+            mem = {}
+            lo, hi = rng.choice([(0, 0), (0xff, 0xff), (0xff, 0), (0xfe, 0xff), (rng.getrandbits(8), rng.getrandbits(8))])
+            kind = rng.randrange(8)
+            if kind == 0:                                   # operand address = the instruction itself
+                lo, hi = pc & 0xff, (pc >> 8) & 0xff
+            mem[(pc + 1) & 0xffff], mem[(pc + 2) & 0xffff] = lo, hi
+            mem[pc + 1], mem[pc + 2] = lo, hi               # what calc_address / the disassembler read unmasked
+            for base in (lo, (lo + x) & 0xff, lo + x, (lo + 1) & 0xff, (lo + 1 + x) & 0xff, lo | (hi << 8), ((lo | (hi << 8)) + 1) & 0xffff,
+                         0x100 + sp, 0x100 + ((sp + 1) & 0xff), 0x100 + ((sp + 2) & 0xff), 0x100 + ((sp + 3) & 0xff)):
+                mem.setdefault(base, rng.choice([0, 0xff, rng.getrandbits(8)]))
+            mem[pc] = opcode
+            st = [("a", a), ("x", x), ("y", y), ("sr", sr), ("pc", pc), ("sp", sp)] + common(rng)
+            if kind == 1 and i >= 5:
+                st.append(("bio", rng.choice([lo, lo | (hi << 8), 0x100 + sp, (lo + x) & 0xff])))
+            lines.append("simx 6502 %s %s" % (kv(st), cells(mem)))
+            strata.add((opcode, sp in (0, 0xff), pc >= 0xfffd))
+    return lines, {"opcodes": 256, "strata(opcode,sp edge,pc top)": len(strata)}
+
+
+GENERATORS = {"tms1000": tms1000_lines, "8008": i8008_lines, "lc3": lc3_lines, "6502": m6502_lines}
